@@ -32,4 +32,14 @@ PROPS = {
              "params": {"quick": {"steps": 2, "ophi": 15}, "thorough": {"steps": 2}}, "wall": {"thorough": "40m"}},
         ],
     },
+    "C05": {
+        "technique": "bounded symbolic execution of READ / READWithPreamble / read-string / PRINT incl. the whole jig/scanner on symbolic bytes over a 36-symbol alphabet; reachability of an escaping panic or of the step budget; SMT (z3) decides assertions, finite-domain evaluation (cross-checked against z3) decides branch feasibility",
+        "outside": "texts longer than N bytes (templates extend the reach: constructor brackets, strings, raw strings, collections, preamble lines with symbolic holes); bytes outside the alphabet Sigma; strconv.ParseFloat is a model (arbitrary result); regexp is modelled by a backtracking matcher",
+        "runs": [
+            {"pkg": "./c05", "harness": "Harness_read", "setup": "Setup", "params": {"quick": {"n": 3}, "thorough": {"n": 4}}, "wall": {"thorough": "40m"}},
+            {"pkg": "./c05", "harness": "Harness_readstring", "setup": "Setup", "params": {"quick": {"n": 2}, "thorough": {"n": 3}}},
+            {"pkg": "./c05", "harness": "Harness_focus", "setup": "Setup", "params": {"quick": {"k": 2}, "thorough": {"k": 3}}, "wall": {"thorough": "40m"}},
+            {"pkg": "./c05", "harness": "Harness_preamble", "setup": "Setup", "params": {"quick": {"n": 2, "v": 1, "c": 1}, "thorough": {"n": 3, "v": 2, "c": 1}}, "wall": {"thorough": "40m"}},
+        ],
+    },
 }
